@@ -1638,7 +1638,16 @@ async fn run(input0: &Input, obs: &mut Obs, env: &Env) -> CheckResult {
             (Some(d), WriteMode::Append) => d.get_fragments().iter().map(|f| f.metadata().id).collect(),
             _ => BTreeSet::new(),
         };
-        let reader = RecordBatchIterator::new(data.batches.clone().into_iter().map(Ok), aschema.clone());
+        // appended batches may present the columns in another order than the table (columns are matched by name)
+        let (feed, feed_schema) = if matches!(mode, WriteMode::Append) && call.pad % 2 == 1 && aschema.fields().len() >= 2 {
+            obs.label("append-with-permuted-columns");
+            let idx: Vec<usize> = (0..aschema.fields().len()).rev().collect();
+            let permuted: Vec<RecordBatch> = data.batches.iter().map(|b| b.project(&idx).expect("projection of all columns")).collect();
+            (permuted, Arc::new(aschema.project(&idx).expect("projection of all fields")))
+        } else {
+            (data.batches.clone(), aschema.clone())
+        };
+        let reader = RecordBatchIterator::new(feed.into_iter().map(Ok), feed_schema);
         let res: Result<Dataset, lance::Error> = match (&mut ds, call.via_uri || first) {
             (_, true) => Dataset::write(reader, &uri, Some(params)).await,
             (Some(d), false) => match mode {
